@@ -1,4 +1,5 @@
 //@ unit k_sub : digit-slice subtraction kernels (src/biguint/subtraction.rs)
+#![feature(allocator_api)]
 use vstd::prelude::*;
 use vstd::std_specs::iter::IteratorSpec;
 verus! {
